@@ -87,6 +87,17 @@ def cases(rng, tier, feats, drv_ok):
                 out.append({'line': f'verify recursive 32 {o[3:]}', 'kind': f"forged:zero-trace{'-spliced' if sp else ''}", 'expect': 'reject', 'name': f'forge_zero({sp},{nq},{pw})'})
             else:
                 out.append({'line': 'powcfg 14', 'kind': 'forger-stopped', 'expect': 'any', 'name': o[:100]})
+    # black-box SOLVING forger: oods = 0^M ++ [0,0] ++ extras with ONE free extra entry, solved (two probes, affine) so that whatever the
+    # OODS check compares becomes equal — wins whenever the check reads ANY entry the DEEP quotient does not (length check weakened,
+    # composition value assembled from a different slice, ...).  On a tree where the length is pinned the forger cannot even start.
+    if HX and own:
+        specs = [(1, 0), (2, 1), (2, 0), (3, 2)] if tier == 'quick' else [(1, 0), (2, 1), (2, 0), (3, 2), (3, 0), (4, 3), (8, 7), (16, 5)]
+        res, _ = fw.run_split(lambda ls, **kw: fw.run_hx(HX, ls), [f'forge_zero_solve {el:x} {fo:x} 10 14' for el, fo in specs])
+        for (el, fo), o in zip(specs, res):
+            if o.startswith('ok '):
+                out.append({'line': f'verify recursive 32 {o[3:]}', 'kind': 'forged:zero-trace-solved-extra', 'expect': 'reject', 'name': f'forge_zero_solve({el},{fo})'})
+            else:
+                out.append({'line': 'powcfg 14', 'kind': 'forger-stopped', 'expect': 'any', 'name': o[:100]})
     # vacuous-FRI forger: a complete, internally consistent proof of a false statement whose FRI really folds down to a last layer whose
     # degree bound equals its domain size; the config is then re-declared in every way we can think of to get that past the
     # validation without touching the body (the config is not in the stone5 Fiat-Shamir seed).  None may be accepted.
